@@ -303,16 +303,33 @@ def make_oob(kind):
     raise ValueError(kind)
 
 
-async def run_pairing_async(case):
+def session_table(rig):
+    """Manager.sessions of both devices: [number of entries, number bound to a Connection object that
+    is no longer the device's live connection for that handle]"""
+    out = []
+    for d in rig.devs:
+        table = d.smp_manager.sessions
+        stale = sum(1 for h, sess in table.items() if d.connections.get(h) is not sess.connection)
+        out.append([len(table), stale])
+    return out
+
+
+async def run_pairing_async(case, rig=None):
     """One real pairing + reconnections.  case: {'i': cfg, 'r': cfg, 'central': 0|1, 'fault':..}
     cfg: {'io','sc','mitm','bonding','ikd','rkd','delay'}.  Device `central` is the LE central and
-    the pairing initiator ('i'); the other one is the peripheral / responder ('r')."""
+    the pairing initiator ('i'); the other one is the peripheral / responder ('r').
+    case['after'] = an earlier case: that pairing (with its reconnections) is run first on the same
+    two devices, so that this one happens on reused connection handles, over an existing bond."""
     from bumble import smp
     from bumble.pairing import PairingConfig
 
+    first = None
+    if rig is None:
+        rig = Rig()
+        await rig.power_on()
+        if case.get('after') is not None:
+            first = await run_pairing_async(case['after'], rig)
     user = User(case)
-    rig = Rig()
-    await rig.power_on()
     c = case.get('central', 0)
     p = 1 - c
     dev = {'i': rig.devs[c], 'r': rig.devs[p]}
@@ -373,10 +390,14 @@ async def run_pairing_async(case):
         tap_manager(side)
 
     obs = {'hang': None}
+    if first is not None:
+        obs['first'] = {k: first.get(k) for k in ('pair_result', 'events_i', 'events_r', 'tables', 'hang')}
+    obs['tables'] = {'before': session_table(rig)}
     if not await rig.connect(c):
         obs['hang'] = 'connect'
         return obs
     conn = {'i': rig.conns[c], 'r': rig.conns[p]}
+    obs['handles'] = [conn['i'].handle, conn['r'].handle]
     if case.get('link_delay'):
         rig.delay_acl(case['link_delay'])
     events = {'i': [], 'r': []}
@@ -462,7 +483,9 @@ async def run_pairing_async(case):
 
     # ---- reconnect in the same and in swapped roles: what key would be used
     obs['reconnect'] = {}
+    obs['tables']['paired'] = session_table(rig)
     await rig.disconnect()
+    obs['tables']['disconnected'] = session_table(rig)
     for label, cen in (('same', c), ('swapped', p)):
         per = 1 - cen
         rec = {}
@@ -496,6 +519,7 @@ async def run_pairing_async(case):
                 rec['same'] = False
         else:
             rec['central_key'] = None
+        rec['table'] = session_table(rig)
         obs['reconnect'][label] = rec
         await rig.disconnect()
     return obs
@@ -1055,8 +1079,23 @@ def oracle(case, obs):
     ci, cr = case['i'], case['r']
     tag = f"io{ci['io']}{cr['io']}-sc{ci['sc']}{cr['sc']}-m{ci['mitm']}{cr['mitm']}-b{ci['bonding']}{cr['bonding']}" \
           f"-kd{ci['ikd']:x}{ci['rkd']:x}{cr['ikd']:x}{cr['rkd']:x}-{case.get('fault')}-{case.get('oob')}"
+    if case.get('after') is not None:
+        tag = 'again-' + tag
     if obs.get('hang') == 'connect':
         return [('setup:' + tag, 'the two devices did not connect')]
+    if obs.get('first') is not None and (obs['first'].get('events_i') != ['pairing'] or obs['first'].get('events_r') != ['pairing']):
+        bad.append(('first-pairing:' + tag, f"the first pairing of the bond did not complete on both sides: {obs['first']}"))
+    # after a disconnection no SMP session stays registered, let alone one of a connection that is gone
+    tables = obs.get('tables', {})
+    for when in ('before', 'disconnected'):
+        t = tables.get(when)
+        if t is not None and any(n or stale for n, stale in t):
+            bad.append(('stale-session:' + tag, f"Manager.sessions {'before this pairing (left by earlier connections)' if when == 'before' else 'after the link went down'}: "
+                                                f"[entries, bound to a closed connection] per device = {t}"))
+    for label, rec in obs.get('reconnect', {}).items():
+        if any(stale for n, stale in rec.get('table', [])):
+            bad.append(('stale-session:' + tag, f"on the reconnection ({label} roles) Manager.sessions holds a session of a "
+                                                f"closed connection: {rec['table']}"))
     ev_i, ev_r = obs['events_i'], obs['events_r']
     done_i = ev_i[:1] == ['pairing']
     done_r = ev_r[:1] == ['pairing']
@@ -1292,6 +1331,18 @@ def gen_cases(ctx):
                               'r': rand_cfg(rng, io=r, sc=scr, mitm=mr, bonding=1),
                               'central': k % 2, 'passkey': rng.below(1000000)})
                 k += 1
+    # 1c. bond, disconnect, reconnect (the controller hands out the same handle), pair again: every
+    #     method, same and swapped initiator, the second pairing with the same or with another configuration
+    again = [((3, 3, 0, 0), (3, 3, 0, 0)), ((3, 3, 1, 0), (3, 3, 1, 0)), ((4, 2, 1, 1), (4, 2, 1, 1)),
+             ((1, 1, 1, 1), (2, 2, 0, 1)), ((0, 2, 0, 1), (3, 3, 1, 0)), ((3, 3, 0, 0), (1, 4, 1, 1)),
+             ((2, 0, 1, 1), (4, 4, 0, 1)), ((3, 3, 1, 0), (3, 3, 0, 0))]
+    for k, (a, b) in enumerate(again[:ctx.n(8, 8)]):
+        def mk(t, central):
+            return {'i': rand_cfg(rng, io=t[0], sc=t[2], mitm=t[3], bonding=1), 'r': rand_cfg(rng, io=t[1], sc=t[2], mitm=t[3], bonding=1),
+                    'central': central, 'passkey': rng.below(1000000)}
+        c2 = mk(b, k % 2)
+        c2['after'] = mk(a, (k // 2) % 2)
+        cases.append(c2)
     # 2. asymmetric configurations
     if quick:
         for _ in range(ctx.n(50, 0)):
@@ -1343,8 +1394,11 @@ def check_pairing_cases(ctx, cases):
     exprs = [model_expr(c) for c in cases]
     model = ctx.coq_eval(['Model.Pairing'], exprs)
     traces = []
+    tabled = []
     for case, m in zip(cases, model):
         obs = run_pairing(case)
+        if obs.get('hang') != 'connect' and obs.get('events_i') and obs.get('events_r') and 'disconnected' in obs.get('tables', {}):
+            tabled.append((case, obs))
         modelled, mview = model_view(m)
         (kind, ri, rr), sc = expected_model(case)
         ctx.count('pairing.cases')
@@ -1368,6 +1422,47 @@ def check_pairing_cases(ctx, cases):
         for sig, what in oracle(case, obs):
             ctx.violation(sig, what, {'kind': 'pairing', 'case': case})
     check_traces(ctx, traces)
+    check_tables(ctx, tabled)
+
+
+def check_tables(ctx, tabled):
+    """Manager.sessions on both devices after the pairing and after the disconnection, against the
+    session-table model (Model/PairingMsg.v, mgr_run), including the first round of a re-pairing."""
+    def ops(first_failed, failed, h, again):
+        def one(initiator, f):
+            start = f'OpPair {h}' if initiator else f'OpPdu {h} true'
+            return [start, f'OpEnded {h} {coq_bool(f)}']
+        out = {}
+        for side, initiator in (('i', True), ('r', False)):
+            pre = []
+            if again is not None:
+                # the first pairing, its disconnection, and the two reconnections of its key check
+                pre = one(again[side], first_failed) + [f'OpDisconnect {h}'] * 3
+            out[side] = pre + one(initiator, failed)
+        return out
+    exprs = []
+    for case, obs in tabled:
+        h = obs['handles'][0]
+        failed = obs['events_i'][:1] != ['pairing']
+        again = None
+        first_failed = False
+        if case.get('after') is not None:
+            same = case['after'].get('central', 0) == case.get('central', 0)
+            again = {'i': same, 'r': not same}          # was this device the initiator of the first pairing?
+            first_failed = obs['first']['events_i'][:1] != ['pairing']
+        o = ops(first_failed, failed, h, again)
+        li, lr = '[' + '; '.join(o['i']) + ']', '[' + '; '.join(o['r']) + ']'
+        exprs.append(f'[session_count (mgr_run {li}); session_count (mgr_run {lr}); '
+                     f'session_count (mgr_run ({li} ++ [OpDisconnect {h}])); session_count (mgr_run ({lr} ++ [OpDisconnect {h}]))]')
+    results = ctx.coq_eval(['Model.Pairing', 'Model.PairingMsg'], exprs)
+    for (case, obs), m in zip(tabled, results):
+        ctx.count('tables.cases')
+        c = case.get('central', 0)
+        t = obs['tables']
+        got = [t['paired'][c], t['paired'][1 - c], t['disconnected'][c], t['disconnected'][1 - c]]
+        if [[n, 0] for n in m] != got:
+            ctx.disagree('Manager.sessions [entries, stale] after pairing (initiator, responder) and after disconnection',
+                         case, list(m), got)
 
 
 def check_traces(ctx, traces):
